@@ -65,6 +65,10 @@ def make(kind, n, fail, shape, spec):
         out = {'op': 'copy', 'freeze': True, 'in': out}
     elif shape == 'warn':
         out['warn'] = True
+        # the warning text is built from the exception: also from one that was raised without arguments
+        inner = out['in']
+        if inner['op'] == 'boomset':
+            inner['noargs'] = True
     elif shape == 'list_zip_warn':
         out = {'op': 'catch', 'exc': spec, 'warn': True,
                'in': {'op': 'zip', 'how': 'method', 'ins': [node, {'op': 'list', 'id': 5, 'n': n, 'mode': 'pickle',
